@@ -75,7 +75,9 @@ ObsRestore == /\ Ev.e = "restore"
 
 \* an environment step of Witness.tla that only reads (a pass of the witness' own REST distributor): the model's state does not move
 ObsEnvStep == Ev.e = "envstep" /\ UNCHANGED <<stored, last, ctr, hist, memo>> /\ i' = i + 1
-TraceNext == i <= Len(Trace) /\ (Reset \/ ObsUpdate \/ ObsGet \/ ObsGetLogs \/ ObsSkip \/ ObsRestore \/ ObsOdd \/ ObsFinal \/ ObsEnvStep)
+\* the witness was restarted on the same database (a change of the log list is judged by Trace_Retire; here the configuration is fixed)
+ObsConf == Ev.e = "conf" /\ UNCHANGED <<stored, last, ctr, hist, memo>> /\ i' = i + 1
+TraceNext == i <= Len(Trace) /\ (ObsConf \/ Reset \/ ObsUpdate \/ ObsGet \/ ObsGetLogs \/ ObsSkip \/ ObsRestore \/ ObsOdd \/ ObsFinal \/ ObsEnvStep)
 TraceSpec == TraceInit /\ [][TraceNext]_tvars
 
 -----------------------------------------------------------------------------
@@ -115,6 +117,13 @@ MonFault(la, st, known, honest) ==
     \* (a store that reported trouble on the way is no licence to decide on some other state: "nothing stored", a stale copy)
     /\ Check("C05", "DecidedOnTheCurrentStateOrStorageErrorWithoutEffect",
              ConformsStep(stored, stored', la) \/ (Fired # {} /\ la.v # "Accept" /\ Ev.unchanged))
+    \* C01: the one history is the chain of STORED checkpoints - a cosignature handed out for a checkpoint that is not held afterwards (a write or
+    \* commit that failed quietly) is outside it: the next request is checked against the older one and a fork of the lost step can be cosigned
+    /\ Check("C01", "WhatWasCosignedIsWhatIsHeld", la.v = "Accept" => Ev.shape.readback /\ Ev.retcp = stored'[la.log])
+    \* C09: a store in trouble may make the witness answer with an internal error, never with a protocol verdict that is not the first matching
+    \* rule on the state that was current ("nothing stored yet" is a rule about the STORE'S CONTENT, not about a read that failed)
+    /\ Check("C09", "ProtocolVerdictUnderStorageTroubleIsStillTheFirstMatch",
+             la.v \in {"Accept", "OldSizeInvalid", "Stale", "RootMismatch", "InvalidProof", "NoValidSig", "UnknownLog"} => FirstMatchStep(stored, la))
     /\ Check("C07", "NoLeak", Ev.opentx = 0 /\ Ev.inuse = 0 /\ la.v # "Hang")
     \* once the errors stop the witness carries on from the last committed state
     /\ Check("C07", "CarriesOn", Fired = {} /\ honest /\ ~(st # None /\ st.n = 0 /\ la.req.n > 0) => la.v = "Accept")
@@ -140,7 +149,8 @@ MonUpdate ==
                IF st # None /\ st.n = 0 /\ la.req.n > 0 /\ la.v = "InvalidProof" THEN "zero-size-wedge"
                ELSE IF st # None /\ st.lines > MaxLines THEN "stored-note-over-signature-limit"
                ELSE "other"))
-    /\ Check("C09", "FirstMatch", FirstMatchStep(stored, la))
+    \* (a step during which a storage failure was injected may be answered with an internal error: MonFault's C09 formula judges those)
+    /\ Check("C09", "FirstMatch", (Ev.frun /\ Ev.fired # <<>>) \/ FirstMatchStep(stored, la))
     /\ Check("C12", "Isolation", IsolationStep(stored, stored', la))
     /\ Check("C12", "OtherLogsCheckpointNeverFiledHere", la.req.auth \in {"peercp", "wrongorigin"} => la.v # "Accept" /\ stored' = stored)
     /\ Check("C16", "LogList", SeqToSet(Ev.loglist) = {m \in Logs : stored'[m] # None})
@@ -154,6 +164,9 @@ MonGet ==
     \* C04 speaks about reads too: "every latest-checkpoint read is a note whose text is the log's, with the log's signature and exactly one valid
     \* signature of each witness key" - the projection of the bytes read (tree, extension, number of valid lines) is that of the note last accepted
     /\ Check("C04", "ReadIsTheCosignedNoteLastAccepted", Ev.failed \/ ReadExactStep(stored, stored', last'))
+    \* C05: reads are part of the one order compatible with real time - a read that started after an update returned sees that update
+    \* (the driver records a read when it STARTED after every earlier step had returned; held-back reads are recorded where they may lie)
+    /\ Check("C05", "ReadIsInRealTimeOrderWithTheUpdates", Ev.failed \/ ReadExactStep(stored, stored', last'))
     \* ... and the bundled HTTP client hands the caller those bytes, all of them, however long the checkpoint is
     /\ Check("C04", "ClientReadIsTheWholeNote", Ev.failed \/ ~(Ev.status = 200 /\ Ev.log \in Logs /\ stored[Ev.log] # None) \/ Ev.client = "bytes")
     \* C07: a read never leaves a transaction or the connection behind, and only fails when a failure was injected
